@@ -138,6 +138,59 @@ theorem C02_model_meets_spec (c : Case) (hwf : wf c = true) (hk : known c = []) 
   unfold spec model
   simp only [h3, h4, h5, h6, specValues, beq_self_eq_true, Bool.and_self]
 
+/-! ### which validators run (K02a)
+
+  The model knows a field's validators only as a COUNT (`Attr.validators`: 0 = `validator=None`): whether a given
+  validator object is truthy, sized, hashable or comparable is not an input of the model, so nothing below can depend
+  on it.  The two theorems say that "given" is the whole criterion: with the switch on, every given validator of every
+  participating field is in the expected trace (with instance, Attribute and the converted value), and no validator
+  event exists that is not one of those.  /repo used to judge a validator by TRUTHINESS (`if a.validator:` in
+  `_attrs_to_init_script`, `if not v:` in `setters.validate`): a callable validator object with `__len__() == 0` or a
+  false `__bool__` was never run (K02a, repaired; regression cases `corpus/C02/falsy-validator-*`). -/
+
+/-- **C02_every_given_validator_runs**: given = run, whatever kind of object the validator is. -/
+theorem C02_every_given_validator_runs (r : RunIn) (c : Call) (a : Attr) (ha : a ∈ r.attrs)
+    (hp : participates a = true) (hv : r.cfg.runValidators = true) (i : Nat) (hi : i < a.validators) :
+    ev "validator" a.name i ["self", "attr." ++ a.name, convApply a (C01.rawOf r.attrs c a)] ∈ expectedTrace r c := by
+  unfold expectedTrace
+  simp only [hv, if_true]
+  apply List.mem_append_left
+  apply List.mem_append_right
+  unfold validatorEventsOf
+  exact List.mem_flatMap.2 ⟨a, List.mem_filter.2 ⟨ha, hp⟩, List.mem_map.2 ⟨i, List.mem_range.2 hi, rfl⟩⟩
+
+/-- **C02_only_given_validators_run**: the converse -- every validator event of a construction is the `idx`-th given
+    validator of a participating field of the class. -/
+theorem C02_only_given_validators_run (r : RunIn) (c : Call) (e : Event) (he : e ∈ expectedTrace r c)
+    (hk : e.id.kind = "validator") :
+    ∃ a ∈ r.attrs, participates a = true ∧ e.id.field = a.name ∧ e.id.idx < a.validators := by
+  unfold expectedTrace at he
+  rcases List.mem_append.1 he with h | h4
+  · rcases List.mem_append.1 h with h | h3
+    · rcases List.mem_append.1 h with h1 | h2
+      · exfalso
+        unfold preEvents at h1
+        split at h1
+        · cases h1
+        · simp only [List.mem_singleton] at h1; rw [h1] at hk; simp [ev] at hk
+        · simp only [List.mem_singleton] at h1; rw [h1] at hk; simp [ev] at hk
+      · exfalso
+        obtain ⟨b, _, hb⟩ := List.mem_flatMap.1 h2
+        have := (C02_attr_events_named r.attrs c b e hb).2
+        rw [hk] at this
+        simp at this
+    · split at h3
+      · unfold validatorEventsOf at h3
+        obtain ⟨a, ha, hea⟩ := List.mem_flatMap.1 h3
+        obtain ⟨i, hi, hie⟩ := List.mem_map.1 hea
+        have ha' := List.mem_filter.1 ha
+        exact ⟨a, ha'.1, ha'.2, by rw [← hie]; rfl, by rw [← hie]; exact List.mem_range.1 hi⟩
+      · cases h3
+  · exfalso
+    split at h4
+    · simp only [List.mem_singleton] at h4; rw [h4] at hk; simp [ev] at hk
+    · cases h4
+
 /-! ### converter chains (`converter=[c0, c1, …]`, `converters.pipe`) -/
 
 /-- **C02_pipe_left_to_right**: the value a chain produces is the LAST member applied to what the members before
